@@ -117,7 +117,12 @@ type opcodeUse struct {
 
 // opcodeUses extracts the guarded uses of constants of constType inside the
 // case clauses of switches over ir.<enumType> in fn.
+// constType "prefix:<P>" selects the package-level constants whose name starts with P instead.
 func (c *Ctx) opcodeUses(fn *funcInfo, enumType, constType string) []opcodeUse {
+	prefix := ""
+	if strings.HasPrefix(constType, "prefix:") {
+		prefix = strings.TrimPrefix(constType, "prefix:")
+	}
 	info := fn.Pkg.Info
 	var out []opcodeUse
 	var visit func(n ast.Node, ops []string, kinds kindSet)
@@ -205,7 +210,13 @@ func (c *Ctx) opcodeUses(fn *funcInfo, enumType, constType string) []opcodeUse {
 			return
 		case *ast.Ident:
 			if k, ok := info.Uses[x].(*types.Const); ok && len(ops) > 0 {
-				if nt, ok := k.Type().(*types.Named); ok && nt.Obj().Name() == constType && nt.Obj().Pkg() == fn.Obj.Pkg() {
+				match := false
+				if prefix != "" {
+					match = strings.HasPrefix(k.Name(), prefix) && k.Pkg() == fn.Obj.Pkg() && k.Parent() == k.Pkg().Scope()
+				} else if nt, ok := k.Type().(*types.Named); ok && nt.Obj().Name() == constType && nt.Obj().Pkg() == fn.Obj.Pkg() {
+					match = true
+				}
+				if match {
 					ks := kindSet{}
 					for kk := range kinds {
 						ks[kk] = true
@@ -223,11 +234,15 @@ func (c *Ctx) opcodeUses(fn *funcInfo, enumType, constType string) []opcodeUse {
 type opRef map[string]map[string][]string // operator -> kind -> allowed opcodes
 
 func runGuardedTable(c *Ctx, r *Report, rule, pkgRel, enumType, constType string, ref opRef, exceptions map[string]string) {
+	runGuardedTableFrac(c, r, rule, pkgRel, enumType, constType, ref, exceptions, 1.0)
+}
+
+func runGuardedTableFrac(c *Ctx, r *Report, rule, pkgRel, enumType, constType string, ref opRef, exceptions map[string]string, minFrac float64) {
 	n := 0
 	reach := map[string]map[string]bool{} // op|kind -> has an allowed opcode
 	nDisp := 0
 	for _, d := range c.dispatchSwitches() {
-		if d.Func.Pkg.Rel != pkgRel || d.TagType != enumType || len(d.Covered) != len(d.Universe) {
+		if d.Func.Pkg.Rel != pkgRel || d.TagType != enumType || float64(len(d.Covered)) < minFrac*float64(len(d.Universe)) {
 			continue
 		}
 		nDisp++
@@ -291,7 +306,7 @@ func runGuardedTable(c *Ctx, r *Report, rule, pkgRel, enumType, constType string
 		for _, op := range ops {
 			for _, k := range scalarKinds {
 				allowed, feasible := ref[op][k]
-				if !feasible {
+				if !feasible || len(allowed) == 0 {
 					continue
 				}
 				construct := pkgRel + ":" + op + "/" + strings.TrimPrefix(k, "Scalar")
@@ -343,6 +358,70 @@ func init() {
 		runGuardedTable(c, r, "opsel.spirv", "spirv/internal/codegen", "UnaryOperator", "OpCode", spirvUnaryRef, nil)
 		for _, o := range r.Obs {
 			fmt.Println(o.Verdict, o.Rule, o.Construct, o.Pos, o.Msg)
+		}
+		fmt.Println(r.Instances)
+	}
+}
+
+// ---- math builtins -> GLSL.std.450 extended instructions (SPIR-V backend) ----
+//
+// Written from the WGSL builtin definitions and the GLSL.std.450 specification:
+// the instruction listed is the one whose specified result equals the WGSL
+// builtin's for operands of that scalar kind. An empty list means no extended
+// instruction computes it (abs on u32 is the identity).
+
+func sameAll(names ...string) map[string][]string {
+	return map[string][]string{"ScalarFloat": names, "ScalarSint": names, "ScalarUint": names}
+}
+func floatOnly(names ...string) map[string][]string {
+	return map[string][]string{"ScalarFloat": names}
+}
+
+var spirvMathRef = opRef{
+	"MathAbs":     {"ScalarFloat": {"GLSLstd450FAbs"}, "ScalarSint": {"GLSLstd450SAbs"}, "ScalarUint": {}},
+	"MathMin":     {"ScalarFloat": {"GLSLstd450FMin"}, "ScalarSint": {"GLSLstd450SMin"}, "ScalarUint": {"GLSLstd450UMin"}},
+	"MathMax":     {"ScalarFloat": {"GLSLstd450FMax"}, "ScalarSint": {"GLSLstd450SMax"}, "ScalarUint": {"GLSLstd450UMax"}},
+	"MathClamp":   {"ScalarFloat": {"GLSLstd450FClamp"}, "ScalarSint": {"GLSLstd450SClamp"}, "ScalarUint": {"GLSLstd450UClamp"}},
+	"MathSign":    {"ScalarFloat": {"GLSLstd450FSign"}, "ScalarSint": {"GLSLstd450SSign"}},
+	"MathSaturate": floatOnly("GLSLstd450FClamp"),
+	"MathCos":      floatOnly("GLSLstd450Cos"), "MathCosh": floatOnly("GLSLstd450Cosh"), "MathSin": floatOnly("GLSLstd450Sin"),
+	"MathSinh": floatOnly("GLSLstd450Sinh"), "MathTan": floatOnly("GLSLstd450Tan"), "MathTanh": floatOnly("GLSLstd450Tanh"),
+	"MathAcos": floatOnly("GLSLstd450Acos"), "MathAsin": floatOnly("GLSLstd450Asin"), "MathAtan": floatOnly("GLSLstd450Atan"),
+	"MathAtan2": floatOnly("GLSLstd450Atan2"), "MathAsinh": floatOnly("GLSLstd450Asinh"), "MathAcosh": floatOnly("GLSLstd450Acosh"),
+	"MathAtanh": floatOnly("GLSLstd450Atanh"), "MathRadians": floatOnly("GLSLstd450Radians"), "MathDegrees": floatOnly("GLSLstd450Degrees"),
+	"MathCeil": floatOnly("GLSLstd450Ceil"), "MathFloor": floatOnly("GLSLstd450Floor"),
+	"MathRound": floatOnly("GLSLstd450RoundEven"), // Round leaves ties to the implementation
+	"MathFract": floatOnly("GLSLstd450Fract"), "MathTrunc": floatOnly("GLSLstd450Trunc"),
+	"MathModf": floatOnly("GLSLstd450ModfStruct"), "MathFrexp": floatOnly("GLSLstd450FrexpStruct"), "MathLdexp": floatOnly("GLSLstd450Ldexp"),
+	"MathExp": floatOnly("GLSLstd450Exp"), "MathExp2": floatOnly("GLSLstd450Exp2"), "MathLog": floatOnly("GLSLstd450Log"),
+	"MathLog2": floatOnly("GLSLstd450Log2"), "MathPow": floatOnly("GLSLstd450Pow"),
+	"MathCross": floatOnly("GLSLstd450Cross"), "MathDistance": floatOnly("GLSLstd450Distance"), "MathLength": floatOnly("GLSLstd450Length"),
+	"MathNormalize": floatOnly("GLSLstd450Normalize"), "MathFaceForward": floatOnly("GLSLstd450FaceForward"),
+	"MathReflect": floatOnly("GLSLstd450Reflect"), "MathRefract": floatOnly("GLSLstd450Refract"),
+	"MathFma": floatOnly("GLSLstd450Fma"), "MathMix": floatOnly("GLSLstd450FMix"), "MathStep": floatOnly("GLSLstd450Step"),
+	"MathSmoothStep": floatOnly("GLSLstd450SmoothStep"), "MathSqrt": floatOnly("GLSLstd450Sqrt"),
+	"MathInverseSqrt": floatOnly("GLSLstd450InverseSqrt"), "MathInverse": floatOnly("GLSLstd450MatrixInverse"),
+	"MathDeterminant": floatOnly("GLSLstd450Determinant"),
+	"MathCountTrailingZeros": {"ScalarSint": {"GLSLstd450FindILsb", "GLSLstd450UMin"}, "ScalarUint": {"GLSLstd450FindILsb", "GLSLstd450UMin"}},
+	"MathCountLeadingZeros":  {"ScalarSint": {"GLSLstd450FindUMsb"}, "ScalarUint": {"GLSLstd450FindUMsb"}},
+	"MathFirstTrailingBit":   {"ScalarSint": {"GLSLstd450FindILsb"}, "ScalarUint": {"GLSLstd450FindILsb"}},
+	"MathFirstLeadingBit":    {"ScalarSint": {"GLSLstd450FindSMsb"}, "ScalarUint": {"GLSLstd450FindUMsb"}},
+	"MathPack4x8snorm": floatOnly("GLSLstd450PackSnorm4x8"), "MathPack4x8unorm": floatOnly("GLSLstd450PackUnorm4x8"),
+	"MathPack2x16snorm": floatOnly("GLSLstd450PackSnorm2x16"), "MathPack2x16unorm": floatOnly("GLSLstd450PackUnorm2x16"),
+	"MathPack2x16float": floatOnly("GLSLstd450PackHalf2x16"),
+	"MathUnpack4x8snorm": {"ScalarUint": {"GLSLstd450UnpackSnorm4x8"}}, "MathUnpack4x8unorm": {"ScalarUint": {"GLSLstd450UnpackUnorm4x8"}},
+	"MathUnpack2x16snorm": {"ScalarUint": {"GLSLstd450UnpackSnorm2x16"}}, "MathUnpack2x16unorm": {"ScalarUint": {"GLSLstd450UnpackUnorm2x16"}},
+	"MathUnpack2x16float": {"ScalarUint": {"GLSLstd450UnpackHalf2x16"}},
+}
+
+func init() {
+	dumpers["guardedmath"] = func(c *Ctx, parts []string) {
+		r := newReport("dump")
+		runGuardedTableFrac(c, r, "mathsel.spirv", "spirv/internal/codegen", "MathFunction", "prefix:GLSLstd450", spirvMathRef, nil, 0.7)
+		for _, o := range r.Obs {
+			if o.Verdict != OK {
+				fmt.Println(o.Verdict, o.Rule, o.Construct, o.Pos, o.Msg)
+			}
 		}
 		fmt.Println(r.Instances)
 	}
